@@ -29,7 +29,7 @@ CONSTANTS
   MaxMut,           \* 0, 1 or 2 mutation steps
   MutKinds,         \* subset of {"insf","dup","swap","bad","del","own"}
   MutateAll,        \* TRUE: mutate every walk; FALSE: only the base walks (see MutBase)
-  Modes,            \* subset of {"sparse","full","cap","overcap"}
+  Modes,            \* subset of {"sparse","full","cofull","cap","overcap"}
   EmitCases         \* TRUE: print one JSON line per terminal state
 
 VARIABLES mt, mode, phase, gpc, left, toks, nopt, nalt, muts, w, pos, out, verdict
@@ -43,10 +43,13 @@ L          == Layout(mt)
 HasBoundedLoop(t) == \E i \in 1..Len(Layout(t)) :
                         Layout(t)[i].k = "LB" /\ Layout(t)[i].max > 1 /\ Layout(t)[i].max < Unbounded
 
+HasOptionalSeq(t) == \E b \in 1..Len(Layout(t)) : Layout(t)[b].k = "LB" /\ Layout(t)[b].min = 0
+
 Init ==
   /\ mt \in TypesUnderTest
   /\ mode \in Modes
   /\ (mode \in {"cap", "overcap"}) => HasBoundedLoop(mt)
+  /\ (mode = "cofull") => HasOptionalSeq(mt)
   /\ phase = "gen" /\ gpc = 1 /\ left = 0
   /\ toks = <<>> /\ nopt = 0 /\ nalt = 0 /\ muts = <<>>
   /\ w = W0 /\ pos = 1 /\ out = <<>>
@@ -55,13 +58,21 @@ Init ==
 (* ------------------------------ generation ------------------------------ *)
 Sparse == mode \in {"sparse", "cap", "overcap"}
 Budget == IF mode = "sparse" THEN K ELSE 0   \* cap / overcap walks carry no optional element
+\* "cofull": the dual of "sparse" -- everything present except at most KCo optional fields (nopt counts the
+\* omissions).  It reaches the places where an optional sequence or a transaction stands with only SOME of its
+\* fields, e.g. a settlement sequence whose first remaining field is its third optional one.
+CoFull == mode = "cofull"
+KCo == 2
+\* ... and only fields of an OPTIONAL sequence (LB with min = 0) are omitted: that is where a sequence can
+\* stand with only some of its fields while everything around it is present
+InOptionalSeq(i) == \E b \in 1..(i - 1) : L[b].k = "LB" /\ L[b].min = 0 /\ EndOf(L, b) > i
 
 (* option choices of an item: the default always, any other once per walk *)
 TagChoices(it) == {it.tags[1]} \cup (IF nalt = 0 THEN Range(it.tags) ELSE {})
 
 RepChoices(it) ==
   CASE mode = "sparse"  -> {n \in {it.min, 1, 2} : n <= it.max}
-    [] mode = "full"    -> {IF it.max >= 2 THEN 2 ELSE it.max}
+    [] mode \in {"full", "cofull"} -> {IF it.max >= 2 THEN 2 ELSE it.max}
     [] mode = "cap"     -> {IF it.max < Unbounded /\ it.max > 1 THEN it.max ELSE IF it.min > 1 THEN it.min ELSE 1}
     [] mode = "overcap" -> {IF it.max < Unbounded /\ it.max > 1 THEN it.max + 1 ELSE IF it.min > 1 THEN it.min ELSE 1}
 
@@ -75,8 +86,9 @@ GenField(it) ==
           /\ nalt' = IF t = it.tags[1] THEN nalt ELSE 1
      /\ nopt' = IF it.k = "F" \/ ~Sparse THEN nopt ELSE nopt + 1
   \/ \* absent
-     /\ it.k = "O" /\ Sparse
-     /\ UNCHANGED <<toks, nalt, nopt>>
+     /\ it.k = "O" /\ (Sparse \/ (CoFull /\ nopt < KCo /\ InOptionalSeq(gpc)))
+     /\ nopt' = IF CoFull THEN nopt + 1 ELSE nopt
+     /\ UNCHANGED <<toks, nalt>>
 
 GenRepeat(it) ==
   \E n \in (IF Sparse
@@ -110,33 +122,35 @@ InsertAt(s, p, e) == SubSeq(s, 1, p - 1) \o <<e>> \o SubSeq(s, p, Len(s))
 RemoveAt(s, p)    == SubSeq(s, 1, p - 1) \o SubSeq(s, p + 1, Len(s))
 
 (* base walks: nothing optional / everything present, default options *)
-MutBase == MutateAll \/ (nalt = 0 /\ (nopt = 0 \/ mode = "full") /\ mode \in {"sparse", "full"})
+MutBase == MutateAll \/ (nalt = 0 /\ (nopt = 0 \/ mode = "full") /\ mode \in {"sparse", "full"}) \/ (CoFull /\ nalt = 0)
+\* cofull walks are bases of deletions only (their point is what follows a deleted mandatory field)
+KindOn(k) == k \in MutKinds /\ (CoFull => k = "del")
 
 Mutants ==   \* set of <<mutation record, new token sequence>>
   LET n == Len(toks) IN
-     (IF "insf" \in MutKinds
+     (IF KindOn("insf")
         THEN {<<[k |-> "insf", p |-> p, t |-> Foreign], InsertAt(toks, p, Tok(Foreign))>> : p \in 1..(n + 1)}
         ELSE {})
-  \cup (IF "dup" \in MutKinds
+  \cup (IF KindOn("dup")
         THEN {<<[k |-> "dup", p |-> p, t |-> toks[p].tag], InsertAt(toks, p + 1, toks[p])>> : p \in 1..n}
         ELSE {})
-  \cup (IF "swap" \in MutKinds
+  \cup (IF KindOn("swap")
         THEN {<<[k |-> "swap", p |-> p, t |-> toks[p].tag],
                 [toks EXCEPT ![p] = toks[p + 1], ![p + 1] = toks[p]]>> :
                    p \in {q \in 1..(n - 1) : toks[q] # toks[q + 1]}}
         ELSE {})
-  \cup (IF "bad" \in MutKinds
+  \cup (IF KindOn("bad")
         THEN {<<[k |-> "bad", p |-> p, t |-> toks[p].tag], [toks EXCEPT ![p].ok = FALSE]>> :
                    p \in {q \in 1..n : toks[q].ok /\ toks[q].tag # Foreign}}
         ELSE {})
-  \cup (IF "del" \in MutKinds
+  \cup (IF KindOn("del")
         THEN {<<[k |-> "del", p |-> p, t |-> toks[p].tag], RemoveAt(toks, p)>> : p \in 1..n}
         ELSE {})
-  \cup (IF "letter" \in MutKinds      \* same field, another option letter of its family
+  \cup (IF KindOn("letter")      \* same field, another option letter of its family
         THEN UNION {{<<[k |-> "letter", p |-> p, t |-> t], [toks EXCEPT ![p].tag = t]>> :
                        t \in SiblingsOf(toks[p].tag)} : p \in 1..n}
         ELSE {})
-  \cup (IF "own" \in MutKinds
+  \cup (IF KindOn("own")
         THEN {<<[k |-> "own", p |-> p, t |-> t], InsertAt(toks, p, Tok(t))>> :
                    p \in 1..(n + 1), t \in Alphabet(mt)}
         ELSE {})
